@@ -62,8 +62,8 @@ func c10Body(c *explore.C, tier universe.Tier) {
 	proto := universe.DfltSpec()
 	k := c.Choose(13, explore.Data, "field") // fields with ids 1..13 are the optional ones, sorted by id
 	f := proto.Fields[k]
-	alpha := universe.Alphabet(f.Type, universe.Quick, 1)
-	if f.Type.Kind == ref.KList || f.Type.Kind == ref.KMap {
+	alpha := universe.Alphabet(f.Type, tier, 1)
+	if (f.Type.Kind == ref.KList || f.Type.Kind == ref.KMap) && tier == universe.Quick {
 		alpha = alpha[:4]
 	}
 	ai := c.Choose(len(alpha)+1, explore.Data, "declared-default") // last = keep the base table's default
